@@ -151,6 +151,17 @@ func (b *Backends) Commit() {
 	b.changedShards = map[int]bool{}
 }
 
+// ChangeAll flags all the backends as added and all the shards as changed,
+// so all of their maps and configuration files are written again.
+func (b *Backends) ChangeAll() {
+	for id, backend := range b.items {
+		b.itemsAdd[id] = backend
+	}
+	for i := range b.shards {
+		b.backendShardChanged(i)
+	}
+}
+
 // Changed ...
 func (b *Backends) Changed() bool {
 	return len(b.itemsAdd) > 0 || len(b.itemsDel) > 0
